@@ -41,7 +41,7 @@ msg = st.one_of(
 
 
 @st.composite
-def case_s(draw, kinds=("tcp-lines", "unix-lines", "server")) -> dict[str, Any]:
+def case_s(draw, kinds=("tcp-lines", "unix-lines", "server", "tcp-lines", "unix-lines", "server", "server2")) -> dict[str, Any]:
     kind = draw(st.sampled_from(kinds))
     big = draw(st.integers(0, 9)) == 0
     msgs = draw(st.lists(msg if big else st.one_of(st.binary(min_size=1, max_size=8), msg.filter(lambda m: len(m) <= 64)),
@@ -70,7 +70,7 @@ def case_s(draw, kinds=("tcp-lines", "unix-lines", "server")) -> dict[str, Any]:
     wblock = draw(st.one_of(st.just([]), st.lists(st.booleans(), min_size=1, max_size=6)))
     # the peer dies in the middle of a further line: its first k characters (even and odd k) arrive, then end-of-stream
     partial = ""
-    if kind != "server" and draw(st.integers(0, 3)) == 0:
+    if kind not in ("server", "server2") and draw(st.integers(0, 3)) == 0:
         full = draw(st.binary(min_size=1, max_size=8)).hex()
         partial = full[: draw(st.integers(1, len(full)))]
     return {"kind": kind, "msgs": msgs, "cuts": cuts, "gaps": gaps, "reads": reads, "eof_gap": eof_gap, "wblock": wblock, "partial": partial}
@@ -189,6 +189,8 @@ def check(case: dict[str, Any]) -> list[tuple[str, str]]:
     kind = case["kind"]
     if kind == "server":
         return _check_server(case)
+    if kind == "server2":
+        return _check_server_multi(case)
     out: list[tuple[str, str]] = []
     expected = _model_client(case)
     arr, t_eof, _ = _arrivals(case)
@@ -341,7 +343,64 @@ def _check_server(case: dict[str, Any]) -> list[tuple[str, str]]:
     return out
 
 
+def _check_server_multi(case: dict[str, Any]) -> list[tuple[str, str]]:
+    """Two testers connected to one server object at the same time, their requests interleaved: every connection gets exactly the
+    replies to its own requests, in order."""
+    from gallia.services.uds.server import TCPUDSServerTransport
+    from gallia.transports import TargetURI
+
+    msgs = case["msgs"]
+    seen: list[bytes] = []
+
+    def reply(req: bytes) -> bytes | None:
+        return None if req[0] % 5 == 4 else bytes(reversed(req)) + b"\x00"
+
+    class T(TCPUDSServerTransport):
+        async def handle_request(self, request_pdu: bytes):  # type: ignore[override]
+            seen.append(request_pdu)
+            return reply(request_pdu), 0.0
+
+    writers = [MemWriter(), MemWriter()]
+    state: dict[str, Any] = {}
+
+    async def run() -> None:
+        loop = asyncio.get_event_loop()
+        srv = T(None, TargetURI("tcp-lines://127.0.0.1:1"))  # type: ignore[arg-type]
+        readers = [asyncio.StreamReader(limit=2**16), asyncio.StreamReader(limit=2**16)]
+        tasks = [loop.create_task(srv.handle_client(readers[0], writers[0]))]  # type: ignore[arg-type]
+        await asyncio.sleep(0.5)
+        tasks.append(loop.create_task(srv.handle_client(readers[1], writers[1])))  # type: ignore[arg-type]
+        await asyncio.sleep(0.5)
+        for i, m in enumerate(msgs):
+            readers[i % 2].feed_data(hexlify(m) + b"\n")
+            await asyncio.sleep(case["gaps"][i % len(case["gaps"])] if case["gaps"] else 1)
+        await asyncio.sleep(0.5)
+        state["wire"] = [w.data() for w in writers]
+        for r in readers:
+            r.feed_eof()
+        try:
+            await asyncio.wait_for(asyncio.gather(*tasks, return_exceptions=True), 5)
+        except TimeoutError:
+            state["hung"] = True
+
+    status, val, _ = run_virtual(run, max_virtual=1e6)
+    if status != "ok":
+        return [("C19/server/harness", f"{status} {val!r}")]
+    out: list[tuple[str, str]] = []
+    for c in (0, 1):
+        own = [m for i, m in enumerate(msgs) if i % 2 == c]
+        exp = b"".join(hexlify(r) + b"\n" for r in (reply(m) for m in own) if r is not None)
+        if state["wire"][c] != exp:
+            out.append(("C19/server/two-connections/reply-on-wrong-connection", f"connection {c} sent {[m.hex()[:12] for m in own][:6]} and received {state['wire'][c][:80]!r}, expected {exp[:80]!r}"))
+            break
+    if sorted(seen) != sorted(msgs):
+        out.append(("C19/server/two-connections/request-sequence", f"server saw {len(seen)} of {len(msgs)} requests"))
+    return out
+
+
 def nontrivial(case: dict[str, Any]) -> bool:
+    if case["kind"] == "server2":
+        return len(case["msgs"]) >= 2
     ends = set()
     o = 0
     for m in case["msgs"]:
@@ -352,19 +411,21 @@ def nontrivial(case: dict[str, Any]) -> bool:
     bounds = [0] + list(cuts) + [o]
     coalesced = any(sum(1 for e in ends if a < e <= b) >= 2 for a, b in zip(bounds, bounds[1:]))
     timeout_inside = False
-    if case["kind"] != "server":
+    if case["kind"] not in ("server", "server2"):
         timeout_inside = any(e[0] == "timeout" for e in _model_client(case)[: len(case["reads"])]) and inside
     return inside or coalesced or timeout_inside
 
 
 def classify(case: dict[str, Any]) -> str:
+    if case["kind"] == "server2":
+        return "server/two-connections"
     ends = set()
     o = 0
     for m in case["msgs"]:
         o += 2 * len(m) + 1
         ends.add(o)
     inside = any(c not in ends for c in case["cuts"])
-    tmo = case["kind"] != "server" and any(e[0] == "timeout" for e in _model_client(case)[: len(case["reads"])])
+    tmo = case["kind"] not in ("server", "server2") and any(e[0] == "timeout" for e in _model_client(case)[: len(case["reads"])])
     return f"{case['kind']}/" + ("split-inside-line" if inside else "line-aligned") + ("+timeout" if tmo else "")
 
 
